@@ -113,9 +113,12 @@ func (p *Prop) Run(t *simhook.Tape, opt simkit.RunOpt) *simkit.RunResult {
 		runBudget = 60000000
 	}
 	c.hash.Word(uint64(sub))
-	res, abort := simkit.RunSolo(t, runBudget, runBudget, true, body)
+	res, abort := simkit.RunSolo(t, runBudget, runBudget/2, true, body)
 	rr := &simkit.RunResult{Hash: uint64(c.hash), Nontrivial: c.nontriv, Steps: res.Steps, History: c.hist, FaultTrace: c.ftrace, Policy: "seq"}
-	if abort != nil && c.viol == nil {
+	if abort != nil && !simkit.AbortIsVerdict(abort) {
+		rr.BudgetHit = true
+	}
+	if simkit.AbortIsVerdict(abort) && c.viol == nil {
 		c.viol = &simkit.Violation{Property: "C18", Oracle: "C18/no-progress", Op: "run", Seq: res.Steps, Message: abort.Reason + abort.Where() + " (termination within the step budget is part of the property)"}
 		rr.BudgetHit = true
 	}
